@@ -248,6 +248,29 @@ def run(ck, prog, ctx):
                       "DiseaseComponents{id<-col %s, name<-col %s, hpo_id<-col %s} (expected 0, 1, 3)" % tuple(sorted(m.get(k, (set(),))[0]) for k in ("id", "name", "hpo_id")), where=pc.where(s.line))
                 ck.ob("ROLE", "hpoa/id-after-colon", bool(m.get("id", (None, False))[1]), "the disease id is the part of column 0 after ':'", where=pc.where(s.line))
 
+    # ------------------------------------------------------------------ TABLE: the column separator is the TAB character
+    # (the annotation files are tab separated; gene symbols and disease names may contain blanks, colons and non-ASCII white space)
+    for fid_, what_ in ((G + "genes_to_phenotype_line", "genes_to_phenotype.txt"), (G + "phenotype_to_gene_line", "phenotype_to_genes.txt"), (D + "parse_disease_components", "phenotype.hpoa")):
+        lb_ = prog.body(fid_)
+        if lb_ is None:
+            continue
+        sp = [(bi, t) for bi, t in lb_.calls() if re.search(r"core::str::<impl str>::(r?splitn?|split_terminator|split_whitespace|split_ascii_whitespace|split_inclusive|split_once)", t.callee.name or "")
+              and params_of(pvn.of_operand(lb_, t.args[0]), lb_.id) == {1}]
+        if not sp:
+            ck.undecided("TABLE", "separator/%s" % lb_.name, "no split of the line recognised in %s" % lb_.short, where=lb_.where())
+            continue
+        for bi, t in sp[:1]:
+            m = t.callee.method
+            pat = None
+            if m in ("split", "splitn", "rsplit", "rsplitn", "split_terminator", "split_inclusive"):
+                a = t.args[-1]
+                pat = a.const["val"] if a.kind == "const" else const_str_of(lb_, pvn, a)
+            ok = m in ("split", "splitn") and pat in ("'\\t'", "\t", '"\\t"', "'\t'")
+            if not ok and m in ("split", "splitn") and (pat is None or re.search(r"::|^[A-Z_][A-Z0-9_]*$", str(pat))):
+                ck.undecided("TABLE", "separator/%s" % lb_.name, "the separator handed to %s() in %s is not a literal (%s)" % (m, lb_.short, pat), where=lb_.where(t.line))
+                continue
+            ck.ob("TABLE", "separator/%s" % lb_.name, ok, "%s splits a row of %s with %s(%s) (expected split('\\t'): the columns are TAB separated and may contain other white space)" % (lb_.short, what_, m, pat if pat is not None else ""), where=lb_.where(t.line))
+
     # ------------------------------------------------------------------ ROLE: gene line parsers
     for fn, want in (("genes_to_phenotype_line", (0, 1, 2)), ("phenotype_to_gene_line", (2, 3, 0))):
         b = prog.body(G + fn)
